@@ -101,6 +101,13 @@ theorem decRef_prog_matches (r : Nat) : decRef .prog r = NV.Gen.C06.progDec r 0 
   | zero => simp
   | succ n => simp
 
+/-- **func_ref_sites_agree** (obligation on the regenerated site expressions): make_functional_funp increments func_ref
+    of the very program it stores in the pointer, and dealloc_funp / f_bind address the program stored in the pointer —
+    so every increment is undone on the same program (the model: one func_ref cell per program, held by the pointer). -/
+theorem func_ref_sites_agree :
+    NV.Gen.C06.funcRefIncProg = NV.Gen.C06.funcRefStoredProg ∧ NV.Gen.C06.funcRefDecProg = "f.functional.prog" ∧
+    NV.Gen.C06.funcRefBindProg = "f.functional.prog" := by decide
+
 /-- the byte count the model keeps per array (total_array_size) is the regenerated formula of allocate_array /
     allocate_empty_array / dealloc_array / free_empty_array -/
 theorem arrBytes_matches (n : Nat) : arrBytes n = NV.Gen.C06.arrBytesOf n := by
@@ -130,7 +137,7 @@ theorem ref_eq_holders (ops : List Op) (s : St) (h : run St.init ops = .ok s) (f
   rw [inv.1, Nat.mod_eq_of_lt hlt]
 
 example : ∃ s cell, run St.init [.newarr 0 2, .assign 1 0, .newmap 2, .mset 2 0 0, .push 0] = .ok s ∧
-    s.heap[2]? = some cell ∧ cell.ref = 5 ∧ H s 2 = 5 := by
+    s.heap[c0]? = some cell ∧ cell.ref = 5 ∧ H s c0 = 5 := by
   refine ⟨_, _, rfl, rfl, ?_, ?_⟩ <;> decide
 
 /-- **no_free_while_held.**  Under the same hypothesis a deallocated cell has no holder left: no variable, stack
@@ -143,7 +150,7 @@ theorem no_free_while_held (ops : List Op) (s : St) (h : run St.init ops = .ok s
   exact inv
 
 example : ∃ s cell, run St.init [.newarr 0 2, .newarr 1 1, .aset 0 0 1, .free 1, .free 0] = .ok s ∧
-    s.heap[3]? = some cell ∧ cell.live = false := ⟨_, _, rfl, rfl, rfl⟩
+    s.heap[c0 + 1]? = some cell ∧ cell.live = false := ⟨_, _, rfl, rfl, rfl⟩
 
 /-- a pointer stored in a container counts as a holder -/
 theorem heapCnt_pos_of_mem (p : Nat) (h : List Cell) (d : Nat) (dc : Cell) (hd : h[d]? = some dc)
@@ -276,7 +283,7 @@ theorem string_cells_never_freed_while_held (ops : List Op) (s : St) (h : run St
     exact inv
 
 example : ∃ s cell, run St.init [.newstr 0 "a", .newstr 1 "a", .fill 2 3 0, .free 0, .free 1, .free 2] = .ok s ∧
-    s.heap[2]? = some cell ∧ cell.kind = .str ∧ cell.live = false := ⟨_, _, rfl, rfl, rfl, rfl⟩
+    s.heap[c0]? = some cell ∧ cell.kind = .str ∧ cell.live = false := ⟨_, _, rfl, rfl, rfl, rfl⟩
 
 /-! ### a string block is modified in place only by its single holder
 
@@ -387,7 +394,7 @@ theorem join_on_copy_never_inplace (k : Kind) (hk : k.isStr = true) (r : Nat) :
 /-- non-vacuity: the single holder of a run-time string appends in place; with a second holder a copy is made and the
     other holder keeps its text -/
 example : inPlaceTarget (match run St.init [.newmstr 0 "ab"] with | .ok s => s | .error _ => St.init) (.sappend 0 "7")
-    = some 2 := by decide
+    = some c0 := by decide
 example : ∃ s c0 c1, run St.init [.newmstr 0 "ab", .assign 1 0, .schar 1 0 "z"] = .ok s ∧
     strSlot s 0 = some c0 ∧ c0.2.text = "ab" ∧ strSlot s 1 = some c1 ∧ c1.2.text = "zb" :=
   ⟨_, _, _, rfl, rfl, by decide, rfl, by decide⟩
@@ -450,15 +457,17 @@ theorem lc_zero_of_all (k0 : Kind) (h : List Cell) (hall : ∀ cell ∈ h, cell.
     saturation may remain) and num_arrays, num_mappings and tot_alloc_object are back at their initial values.
     Values that hold each other do NOT satisfy the premise (`H > 0` for ever): see `Witness.cycle_leaks`. -/
 theorem balanced_history_returns_to_baseline (ops : List Op) (s : St) (h : run St.init ops = .ok s)
-    (fit : FitsRun St.init ops) (released : ∀ c, H s c = 0) :
-    (∀ (c : Nat) (cell : Cell), s.heap[c]? = some cell → cell.live = true → cell.kind.isStr = true ∧ cell.ref = 0) ∧
+    (fit : FitsRun St.init ops) (released : ∀ c, c ≠ cFProg → c ≠ cFBase → H s c = 0) :
+    (∀ (c : Nat) (cell : Cell), c ≠ cFProg → c ≠ cFBase → s.heap[c]? = some cell → cell.live = true →
+        cell.kind.isStr = true ∧ cell.ref = 0) ∧
     s.stats.numArrays = 0 ∧ s.stats.numMappings = 0 ∧ s.stats.objects = 0 := by
   have inv := run_ok ops St.init s h Inv_init fit
-  have dead : ∀ (c : Nat) (cell : Cell), s.heap[c]? = some cell → cell.live = true → cell.kind.isStr = true ∧ cell.ref = 0 := by
-    intro c cell hc hl
+  have dead : ∀ (c : Nat) (cell : Cell), c ≠ cFProg → c ≠ cFBase → s.heap[c]? = some cell → cell.live = true →
+      cell.kind.isStr = true ∧ cell.ref = 0 := by
+    intro c cell n1 n2 hc hl
     have i := inv c
     unfold CellOK at i
-    rw [metaOf_some s c cell hc, hl, released c] at i
+    rw [metaOf_some s c cell hc, hl, released c n1 n2] at i
     simp only [RefOK] at i
     by_cases hk : cell.kind.isStr = true
     · rw [if_pos hk] at i
@@ -469,19 +478,32 @@ theorem balanced_history_returns_to_baseline (ops : List Op) (s : St) (h : run S
     · rw [if_neg hk] at i
       have := i.2 two_pow_W_pos
       omega
-  have nolive : ∀ k0, k0.isStr = false → lc k0 s.heap = 0 := by
-    intro k0 hk0
+  -- the two func_ref cells (the only cells with a permanent holder) are programs for ever: cells keep their kind
+  have kprog : ∀ c, (c = cFProg ∨ c = cFBase) → ∀ cell, s.heap[c]? = some cell → cell.kind = .prog := by
+    intro c hcc cell hc
+    have hK := run_K ops St.init s h
+    rcases hcc with e | e <;> subst e
+    · rcases hK cFProg _ (by rfl : St.init.heap[cFProg]? = some _) with ⟨cell', h1, h2⟩
+      rw [hc] at h1; cases h1; exact h2
+    · rcases hK cFBase _ (by rfl : St.init.heap[cFBase]? = some _) with ⟨cell', h1, h2⟩
+      rw [hc] at h1; cases h1; exact h2
+  have nolive : ∀ k0, k0.isStr = false → k0 ≠ .prog → lc k0 s.heap = 0 := by
+    intro k0 hk0 hnp
     apply lc_zero_of_all
     intro cell hm hl e
     rcases List.getElem?_of_mem hm with ⟨c, hc⟩
-    have := (dead c cell hc hl).1
-    rw [e, hk0] at this
-    cases this
+    by_cases hcc : c = cFProg ∨ c = cFBase
+    · have := kprog c hcc cell hc
+      rw [e] at this
+      exact hnp this
+    · have := (dead c cell (fun x => hcc (Or.inl x)) (fun x => hcc (Or.inr x)) hc hl).1
+      rw [e, hk0] at this
+      cases this
   rcases counters_exact ops s h with ⟨a, b, c⟩
   refine ⟨dead, ?_, ?_, ?_⟩
-  · rw [a, nolive .arr rfl]; rfl
-  · rw [b, nolive .map rfl]; rfl
-  · rw [c, nolive .obj rfl]; rfl
+  · rw [a, nolive .arr rfl (by decide)]; rfl
+  · rw [b, nolive .map rfl (by decide)]; rfl
+  · rw [c, nolive .obj rfl (by decide)]; rfl
 
 /-- **unreferenced_is_deallocated** (per value): after any history in which the holders always fit, a value other than
     a string that nothing refers to any more has been deallocated — whatever else is still alive.  (Strings: only a
@@ -575,7 +597,7 @@ example : ∃ s, run St.init [.newarr 0 2, .assign 1 0, .newmap 2, .mset 2 0 0, 
 
 
 /-- non-vacuity: the oracle's count on a model state with shared values -/
-example : ∃ s, run St.init [.newarr 0 2, .assign 1 0, .newmap 2, .mset 2 0 0, .free 1] = .ok s ∧ holders s 2 = 3 ∧ H s 2 = 3 := by
+example : ∃ s, run St.init [.newarr 0 2, .assign 1 0, .newmap 2, .mset 2 0 0, .free 1] = .ok s ∧ holders s c0 = 3 ∧ H s c0 = 3 := by
   refine ⟨_, rfl, ?_, ?_⟩ <;> decide
 
 /-- non-vacuity: a history that shares one array between a variable, a container, a mapping, an object variable,
@@ -584,7 +606,7 @@ def balancedExample : List Op :=
   [.newarr 0 2, .newmap 1, .newobj 0, .mset 1 0 0, .setvar 0 1 0, .newfun 2 0 0, .call 0 0 1 0 1, .sent 0 0 0 1,
    .free 0, .free 1, .free 2, .sweep, .dest 0, .cleanup, .drop 0, .unload 0, .unload 1]
 
-example : ∃ s, run St.init balancedExample = .ok s ∧ (∀ c, c < s.heap.length → H s c = 0) ∧
+example : ∃ s, run St.init balancedExample = .ok s ∧ (∀ c, c < s.heap.length → c ≠ cFProg → c ≠ cFBase → H s c = 0) ∧
     s.stats.numArrays = 0 ∧ s.stats.objects = 0 := by
   refine ⟨_, rfl, ?_, ?_, ?_⟩ <;> decide
 
